@@ -56,3 +56,5 @@ require (
 )
 
 replace github.com/crossplane/crossplane => /repo
+
+require pgregory.net/rapid v1.3.0
